@@ -158,7 +158,9 @@ def _alloc_unrolled(Mx):
     return run
 
 
-for _M in [3, 7, 15]:
+from pyvc.harness import thorough as _thorough   # noqa: E402
+
+for _M in [3, 7, 15] + ([0x1F, 0x3F] if _thorough() else []):
     harness('c13.allocate_stream.unrolled[M=%#x]' % _M, ['C13'], functions=[ALLOC, SC + '._increment_stream_id'],
             replay='c13_allocate', desc='complete unrolling on the reduced id space %#x (no loop contract needed)' % _M,
             max_paths=5000)(_alloc_unrolled(_M))
